@@ -48,7 +48,9 @@ Empty  == [phase |-> "method", method |-> "GET", segs |-> <<>>, trailing |-> FAL
 \* how the bytes reach the parser: in one read; cut in two reads at every position of the head (the harness reports the first
 \* cut whose outcome differs from the uncut one); as the read that follows an earlier, different request on the same connection
 \* object (whose query, headers and payload must not show through)
-Deliveries == {"whole", "split", "after"}
+\* "followed": the read that brings the request also brings the beginning of the next one (a pipelined request): the request denotes
+\* the same (only for well-formed requests: what follows a truncated one completes it)
+Deliveries == {"whole", "split", "after", "followed"}
 
 \* --------------------------------------------------------------------------------------------- the machine
 CONSTANTS MaxSegs, MaxPairs, MaxHeaders,
@@ -85,7 +87,8 @@ Fault(f)    == /\ r.phase = "done" /\ r.fault = "none" /\ f # "none" /\ F({"faul
                /\ r' = [r EXCEPT !.fault = f, !.phase = "end"]
 Finish      == r.phase = "done" /\ r' = [r EXCEPT !.phase = "end"]
 \* the delivery is chosen last (well-formed and malformed requests alike)
-Deliver(d)  == r.phase = "end" /\ r.delivery = "whole" /\ d # "whole" /\ F({"delivery"}) /\ r' = [r EXCEPT !.delivery = d]
+Deliver(d)  == /\ r.phase = "end" /\ r.delivery = "whole" /\ d # "whole" /\ F({"delivery"}) /\ (d = "followed" => r.fault = "none")
+               /\ r' = [r EXCEPT !.delivery = d]
 
 Next == \/ \E m \in Methods : Method(m)
         \/ \E s \in SegToks : Seg(s)
